@@ -187,8 +187,12 @@ def select_once(fam, spec, enc, pop, nc, npar, T, algname, rng, kw, obj_wt, mo_b
     nobj = 1
     from pybrops.breed.prot.sel.prob.trans import trans_sum
     trans = trans_sum; tkw = {}          # the latent vector (traits, families, ...) is reduced to one objective
-    pr = cls(ncross=nc, nparent=npar, nmating=nmating, nprogeny=nprogeny, nobj=nobj, obj_wt=obj_wt, obj_trans=trans, obj_trans_kwargs=tkw,
+    reconf = rng.random() < 0.35
+    nc0 = (nc + rng.choice([1, 2])) if reconf else nc
+    pr = cls(ncross=nc0, nparent=npar, nmating=nmating, nprogeny=nprogeny, nobj=nobj, obj_wt=obj_wt, obj_trans=trans, obj_trans_kwargs=tkw,
              soalgo=make_soalgo(algname, rng), rng=gen(rng), **kw)
+    if reconf:       # an existing protocol object resized through its setters before it is asked to select
+        pr.ncross = nc; pr.nmating = nmating; pr.nprogeny = nprogeny
     mo = {}
     if mo_box is not None:
         mo_box.append(mo)
